@@ -79,6 +79,15 @@ func (e *Engine) at(s *fstate, v ssa.Value, b *ssa.BasicBlock, depth int) AV {
 		case *ssa.BinOp:
 			r2 := e.clipArith(e.binop(x.Op, e.at(s, x.X, b, depth+1), e.at(s, x.Y, b, depth+1), x), x.Type())
 			r = meetAV(r, r2)
+			if x.Op == token.SUB {
+				// a difference whose operands were compared on a dominating edge (if hi < lo { return })
+				if d, ok := e.subRelational(s, x, b); ok && e.boundedOperand(s, x, b, depth) {
+					if m := meetAV(r, d); !m.IsBottom() {
+						m.Taint, m.Exact = r.Taint, false
+						r = m
+					}
+				}
+			}
 		case *ssa.Convert:
 			if isIntType(x.X.Type()) {
 				r = meetAV(r, e.clip(e.at(s, x.X, b, depth+1), x.Type()))
@@ -142,6 +151,76 @@ func (e *Engine) at(s *fstate, v ssa.Value, b *ssa.BasicBlock, depth int) AV {
 		s.atMemo[key] = r
 	}
 	return r
+}
+
+// boundedOperand: one operand of the difference is known to lie within +-2^62, so that X >= Y
+// cannot make X - Y wrap unless the other operand is below -2^62 (assumption recorded in the evidence:
+// offsets and lengths do not reach that magnitude).
+func (e *Engine) boundedOperand(s *fstate, x *ssa.BinOp, b *ssa.BasicBlock, depth int) bool {
+	const lim = int64(1) << 62
+	for _, o := range []ssa.Value{x.X, x.Y} {
+		v := e.at(s, o, b, depth+1)
+		if !v.IsBottom() && v.Lo() > -lim && v.Hi() < lim {
+			return true
+		}
+	}
+	return false
+}
+
+// subRelational: for d = X - Y, what the comparisons of X with Y on the edges dominating block b say
+// about the sign of d (the only relational fact the engine keeps: X >= Y  =>  X - Y >= 0).
+func (e *Engine) subRelational(s *fstate, x *ssa.BinOp, b *ssa.BasicBlock) (AV, bool) {
+	lo, hi := int64(negInf), int64(posInf)
+	found := false
+	for c := b; c != nil; c = c.Idom() {
+		d := c.Idom()
+		if d == nil {
+			break
+		}
+		if len(c.Preds) != 1 || c.Preds[0] != d || len(d.Succs) != 2 {
+			continue
+		}
+		cond, ok := ifCondOf(d).(*ssa.BinOp)
+		if !ok {
+			continue
+		}
+		op := cond.Op
+		switch op {
+		case token.LSS, token.LEQ, token.GTR, token.GEQ:
+		default:
+			continue
+		}
+		if d.Succs[0] != c {
+			op = negate(op)
+		}
+		var same bool
+		if e.sameValue(s, cond.X, x.X, c, b) && e.sameValue(s, cond.Y, x.Y, c, b) {
+			same = true
+		} else if e.sameValue(s, cond.X, x.Y, c, b) && e.sameValue(s, cond.Y, x.X, c, b) {
+			same = true
+			op = flip(op)
+		}
+		if !same {
+			continue
+		}
+		found = true
+		switch op { // X op Y
+		case token.LSS:
+			hi = minI(hi, -1)
+		case token.LEQ:
+			hi = minI(hi, 0)
+		case token.GTR:
+			lo = maxI(lo, 1)
+		case token.GEQ:
+			lo = maxI(lo, 0)
+		}
+	}
+	if !found || lo > hi {
+		return AV{}, false
+	}
+	r := Range(lo, hi)
+	r.SanLo, r.SanHi = lo != negInf, hi != posInf
+	return r, true
 }
 
 // definedBefore: v is available on entry to every predecessor of b (parameter, or defined in a
